@@ -305,10 +305,7 @@ def classify(case, impl, model):
             key = "C26/%s" % cls
         out.append((key, "case `%s`: %s" % (case, item)))
     if "CRASH" in canon or "HANG" in canon or "UNCAUGHT" in canon or "DIED" in canon:
-        if canon == "CRASH:6" and model == canon and re.search(r"\bmul \d", case):
-            # the model reaches ErrOOB in one of the folding helpers of matrix_mul
-            key = "C26/matrix_mul:unchecked-fold-after-identity"
-        elif canon == "CRASH:11" and model == canon:
+        if canon == "CRASH:11" and model == canon:
             key = "C26/check_matching_sizes:null-size-deref"
         elif canon.endswith("CRASH:6") and " | tr=" in canon and model == canon:
             key = "C26/is_toeplitz:oob-wide-dense"
